@@ -48,7 +48,8 @@ Theorem C17_children_nested_ordered :
       (forall i j a b, (i < j)%nat -> nth_error ivs i = Some a -> nth_error ivs j = Some b -> snd a <= fst b).
 Proof. exact (nested_ordered xgo_tokens implicit_base). Qed.
 
-(* ---- FINDING: ValueSpec.End ignores the Tag of a classfile field ---- *)
+(* ---- ValueSpec.End covers the Tag of a classfile field (repaired in /repo; formerly
+        C17_span_refuted_ValueSpecTag) ---- *)
 Definition vident (name : string) (p : Z) : node :=
   Node 0 "Ident" [("NamePos", VPos p); ("Name", VStr name); ("Obj", VNil)].
 (* x int "t"      (a field of a class file: name, type, tag) *)
@@ -56,14 +57,15 @@ Definition ex_valuespec : node :=
   Node 0 "ValueSpec" [("Doc", VNil); ("Names", VList [VNode (vident "x" 10)]); ("Type", VNode (vident "int" 12));
                       ("Tag", VNode (Node 0 "BasicLit" [("ValuePos", VPos 16); ("Kind", VTok 9); ("Value", VStr """t"""); ("Extra", VNil)]));
                       ("Values", VList []); ("Comment", VNil)].
-Definition valuespec_items : list item := [IList "Names"; Op "Type"; Op "Tag"; IList "Values"].
 
-Theorem C17_span_refuted_ValueSpecTag :
-  exists n, kind n = "ValueSpec" /\
-    pe pos_bodies xgo_tokens implicit_base 5 false n = Ok 15 /\                (* End() = end of the type *)
-    eval_expr xgo_tokens (pe pos_bodies xgo_tokens implicit_base 4 true) (pe pos_bodies xgo_tokens implicit_base 4 false) n
-              (tlast (atom_val implicit_base n) valuespec_items) = Ok 19.       (* the last token is the tag *)
-Proof. exists ex_valuespec. repeat split; vm_compute; reflexivity. Qed.
+Example C17_example_ValueSpecTag_good : good_tree implicit_base ex_valuespec = true.
+Proof. vm_compute. reflexivity. Qed.
+(* instance of C17_span_exact: the span of the spec runs from the name to the end of the tag *)
+Theorem C17_span_ValueSpecTag :
+  pe pos_bodies xgo_tokens implicit_base 5 true ex_valuespec = Ok 10 /\
+  pe pos_bodies xgo_tokens implicit_base 5 false ex_valuespec = Ok 19 /\
+  spec_pe xgo_tokens implicit_base 5 false ex_valuespec = Ok 19.
+Proof. repeat split; vm_compute; reflexivity. Qed.
 
 (* ---- non-vacuity ---- *)
 (* ${name} at offset 5:  "$" "{" name "}" *)
@@ -87,15 +89,15 @@ Proof. vm_compute. reflexivity. Qed.
 Example C17_sensitive_wrong_child : (* BinaryExpr.End = X.End() *)
   span_table_ok (set_body "BinaryExpr" (PRet (PChildPos "X"), PRet (PChildEnd "X")) pos_bodies) = false.
 Proof. vm_compute. reflexivity. Qed.
-Example C17_sensitive_ValueSpec :   (* the ValueSpec bodies do not pass against the full template *)
-  match assoc "ValueSpec" pos_bodies with
-  | Some (bp, be) => kind_span_ok bp be (KT valuespec_items [CLenPos "Names"])
-  | None => true
-  end = false.
+Example C17_sensitive_ValueSpec :   (* ValueSpec.End without the Tag case (the defect repaired in /repo) *)
+  span_table_ok (set_body "ValueSpec"
+     (PIf (CNot (CLenPos "Names")) (PRet (PChildPos "Type")) (PRet (PListFirstPos "Names")),
+      PIf (CLenPos "Values") (PRet (PListLastEnd "Values")) (PIf (CNonNil "Type") (PRet (PChildEnd "Type")) (PRet (PListLastEnd "Names"))))
+     pos_bodies) = false.
 Proof. vm_compute. reflexivity. Qed.
 
 Print Assumptions C17_span_table_ok.
 Print Assumptions C17_span_exact.
 Print Assumptions C17_span_exact_generic.
 Print Assumptions C17_children_nested_ordered.
-Print Assumptions C17_span_refuted_ValueSpecTag.
+Print Assumptions C17_span_ValueSpecTag.
